@@ -45,6 +45,12 @@ def site_guard(ck, f, fl, rid="C20.R1"):
                     ok = (call_name(exc) if isinstance(exc, ast.Call) else dotted(exc)) == "ValueError"
                 except (ValueError, TypeError):
                     pass
+    if not ok and not sets:
+        # a raise conditioned on the site name in a form that is not a membership test against a closed set: not recognised (no verdict)
+        for r in raises:
+            for a, t in facts_at(fl, r):
+                if any(isinstance(x, ast.Name) and x.id == site for x in ast.walk(fl.expand(a, r))):
+                    raise AnalysisError(f"{f.qual}: the condition of `{src(r.stmt)[:60]}` mentions `{site}` but is not a membership test against a closed set of names: {src(fl.expand(a, r))[:80]}")
     ck.require(ok, rid, f, raises[0].stmt if raises else "raise ValueError", ok="invalid site names raise ValueError", bad=f"{f.qual} does not reject an unknown site with ValueError", sink=f"{f.name}:reject")
     reqs = [(n, c) for n, c in calls_in(fl) if (dotted(c.func) or "").startswith("requests.")]
     ck.floor(rid, len(reqs), 1, f"requests.* call sites in {f.qual}")
@@ -283,6 +289,89 @@ def query_entries(fl, f, join_call, node):
     raise AnalysisError(f"{f.qual}: query construction not recognised: {src(arg, 80)}")
 
 
+def conditional_elements(ck, fl, f, value, node):
+    """[(element expr, [(condition atom, truth)])] of a list-valued expression, however the list is put together: a literal, a
+    comprehension (with filter) over a literal table of rows - unrolled row by row, the filter decided per row where it is closed -,
+    or an empty list filled by `append` / `extend` under `if`s.  None: construction not recognised."""
+    if isinstance(value, ast.Name):
+        r = _named_list_elements(ck, fl, f, value, node)
+        if r is not None:
+            return r
+    ex = fl.expand(value, node)
+    while isinstance(ex, ast.Call) and call_name(ex) in ("list", "tuple") and len(ex.args) == 1:
+        ex = ex.args[0]
+    if isinstance(ex, (ast.List, ast.Tuple)):
+        return [(e, []) for e in ex.elts]
+    if isinstance(ex, (ast.ListComp, ast.GeneratorExp)) and len(ex.generators) == 1:
+        g = ex.generators[0]
+        it = g.iter
+        while isinstance(it, ast.Call) and call_name(it) in ("list", "tuple") and len(it.args) == 1:
+            it = it.args[0]
+        if not isinstance(it, (ast.List, ast.Tuple)):
+            return None
+        out = []
+        for item in it.elts:
+            if isinstance(g.target, ast.Name):
+                m = {g.target.id: item}
+            elif isinstance(g.target, (ast.Tuple, ast.List)) and isinstance(item, (ast.Tuple, ast.List)) and len(item.elts) == len(g.target.elts) \
+                    and all(isinstance(t, ast.Name) for t in g.target.elts):
+                m = {t.id: v for t, v in zip(g.target.elts, item.elts)}
+            else:
+                return None
+
+            class FN(ast.NodeTransformer):          # `<function name> is None` is decided: a def / import is never None
+                def visit_Compare(self, n):
+                    self.generic_visit(n)
+                    if len(n.ops) == 1 and isinstance(n.ops[0], (ast.Is, ast.IsNot)) and isinstance(n.comparators[0], ast.Constant) \
+                            and n.comparators[0].value is None and isinstance(n.left, ast.Name) and ck.repo.is_callable_name(f, n.left.id):
+                        return ast.copy_location(ast.Constant(value=isinstance(n.ops[0], ast.IsNot)), n)
+                    return n
+            elt = specialise(FN().visit(_subst(copy.deepcopy(ex.elt), m)), {})
+            conds, dead = [], False
+            for c in g.ifs:
+                cc = specialise(FN().visit(_subst(copy.deepcopy(c), m)), {})
+                if isinstance(cc, ast.Constant):
+                    dead = dead or not cc.value
+                    continue
+                conds += edge_facts(cc, True)
+            if not dead:
+                out.append((elt, conds))
+        return out
+    return None
+
+
+def _named_list_elements(ck, fl, f, value, node):
+    if isinstance(value, ast.Name):
+        defs = fl.defs_at(node, value.id)
+        if len(defs) != 1:
+            return None
+        d = next(iter(defs))
+        how = fl.def_how(d, value.id)
+        if how[0] != "assign":
+            return None
+        base = conditional_elements(ck, fl, f, how[1], d) if not isinstance(how[1], ast.Name) else None
+        if base is None:
+            return None
+        out = list(base)
+        for n, c in calls_in(fl):
+            if call_name(c) in ("extend", "append", "insert") and isinstance(c.func, ast.Attribute) and dotted(c.func.value) == value.id and node in fl.cfg.reach(n) \
+                    and fl.defs_at(n, value.id) == defs:
+                if any(t.kind in ("for", "while") for t, lab in fl.cfg.edges_dominating(n) if lab is True and t.kind in ("for", "while")):
+                    return None
+                if call_name(c) == "append" and len(c.args) == 1:
+                    items = [fl.expand(c.args[0], n)]
+                elif call_name(c) == "extend" and len(c.args) == 1 and isinstance(fl.expand(c.args[0], n), (ast.Tuple, ast.List)):
+                    items = list(fl.expand(c.args[0], n).elts)
+                else:
+                    return None
+                conds = [(fl.expand(t.expr, t), lab) for t, lab in fl.cfg.edges_dominating(n) if t.kind == "test" and isinstance(t.stmt, ast.If)]
+                for it_ in items:
+                    out.append((it_, [x for e_, lab in conds for x in edge_facts(e_, lab)]))
+        return out
+    return None
+
+
+
 def _never_none(fl, e, node):
     ex = fl.expand(e, node)
     return all(isinstance(a, ast.Constant) and a.value is not None for a in alts_deep(ex))
@@ -349,24 +438,40 @@ def rule_params(ck):
     gl = flow_of(g)
     site2, start, end = g.params[1:4]
     seen = {}
-    for n, c in calls_in(gl, "append"):
-        if not c.args:
-            continue
-        e = gl.expand(c.args[0], n)
-        if isinstance(e, ast.Call) and call_name(e) == "format" and isinstance(e.func.value, ast.Constant):
-            lit = e.func.value.value
-            arg = e.args[0] if e.args else None
-            who = None
-            if isinstance(arg, ast.Call) and call_name(arg) == "http_date" and arg.args:
-                who = dotted(arg.args[0])
-            elif arg is not None:
-                who = dotted(arg)
-            seen[who] = (lit, n, c)
+    # the condition handed on: ' and '.join(<clauses>) - each clause evaluated to (template, formatted value, conditions)
+    cjoins = [(n, c) for n, c in calls_in(gl, "join") if isinstance(c.func.value, ast.Constant) and isinstance(c.func.value.value, str) and c.args]
+    clauses = None
+    if len(cjoins) == 1:
+        clauses = conditional_elements(ck, gl, g, cjoins[0][1].args[0], cjoins[0][0])
+    if clauses is None:
+        raise AnalysisError(f"{g.qual}: how the condition text is put together is not recognised ({len(cjoins)} join sites)")
+    ck.count("time-filter clauses evaluated", len(clauses))
+    for e, conds in clauses:
+        if isinstance(e, ast.Call) and call_name(e) == "format" and isinstance(e.func.value, ast.Constant) and isinstance(e.func.value.value, str):
+            lit, arg = e.func.value.value, (e.args[0] if e.args else None)
+        elif isinstance(e, ast.JoinedStr) and len([v for v in e.values if isinstance(v, ast.FormattedValue)]) == 1:
+            lit = "".join(v.value if isinstance(v, ast.Constant) else "{0}" for v in e.values)
+            arg = next(v.value for v in e.values if isinstance(v, ast.FormattedValue))
+        elif isinstance(e, ast.BinOp) and isinstance(e.op, ast.Mod) and isinstance(e.left, ast.Constant) and isinstance(e.left.value, str):
+            lit, arg = e.left.value, (e.right.elts[0] if isinstance(e.right, ast.Tuple) and e.right.elts else e.right)
+        else:
+            raise AnalysisError(f"{g.qual}: clause of the condition not recognised: {src(e, 80)}")
+        who, via = None, None
+        if isinstance(arg, ast.Call) and call_name(arg) == "http_date" and arg.args:
+            who, via = dotted(arg.args[0]), "http_date"
+        elif arg is not None:
+            who = dotted(arg)
+        seen.setdefault(who, []).append((lit, conds, via, e))
     for p, op in ((start, ">="), (end, "<=")):
-        hit = seen.get(p)
-        ok = hit is not None and hit[0].startswith(f"connectionTime {op} ") and any((c := cmp_norm(a, t)) and c[1] == "is not" and dotted(c[0]) == p for a, t in facts_at(gl, hit[1]))
-        ck.require(ok, "C20.R3", g, hit[2] if hit else f"connectionTime {op}", ok=f"{p} bounds connectionTime with {op}, formatted by http_date",
+        hits = seen.get(p, [])
+        good = [h for h in hits if h[0].startswith(f"connectionTime {op} ") and h[2] == "http_date"]
+        ok = len(hits) == 1 and len(good) == 1 and any((c := cmp_norm(a, t)) and c[1] == "is not" and dotted(c[0]) == p for a, t in good[0][1])
+        ck.require(ok, "C20.R3", g, hits[0][3] if hits else f"connectionTime {op}", ok=f"{p} bounds connectionTime with {op}, formatted by http_date",
                    bad=f"`{p}` does not flow into the `connectionTime {op} <http date>` clause", sink=f"bytime:{p}")
+        if ok:
+            others = [(a, t) for a, t in good[0][1] if not ((c := cmp_norm(a, t)) and c[1] == "is not" and dotted(c[0]) == p)]
+            ck.require(not others, "C20.R3", g, good[0][3], ok=f"the {p} bound is applied whenever {p} is given",
+                       bad=f"the `{p}` bound is only applied under `{src(others[0][0], 40) if others else ''}` = {others[0][1] if others else ''}", sink=f"bytime:{p}:guard")
 
     def joined_cond(arg, n):
         ex = gl.expand(arg, n) if arg is not None else None
